@@ -39,6 +39,7 @@ Definition e_timeout : err := 65536.      (* RequestError::RequestTimeout *)
 Definition e_unexpected : err := 65537.   (* RequestAttemptError::UnexpectedResponse *)
 Definition e_empty_plan : err := 65538.   (* RequestError::EmptyPlan *)
 Definition e_pool : err := 65539.         (* RequestError::ConnectionPoolError *)
+Definition e_broken : err := 65540.       (* RequestAttemptError::BrokenConnectionError (tie only) *)
 
 (* RetryDecision, without the consistency payload (it does not influence paging) *)
 Inductive decision := DSame | DNext | DDont | DIgnore.
